@@ -1,21 +1,22 @@
 #!/bin/bash
 # confirm a seeded change in its scratch worktree: demo passes without, fails with; suite passes with.
-# usage: confirm_seed.sh <ID>   (expects /tmp/seed-<ID> worktree and /tmp/seed-out/<ID>/{patch.diff,seeded_<ID>.rs})
-ID=$1; WT=/tmp/seed-$ID; OUT=/tmp/seed-out/$ID; LOG=$OUT/confirm.log
+# usage: confirm_seed.sh <ID-K>   (expects /tmp/seed-<ID> worktree and /tmp/seed-out/<ID-K>/{patch.diff,seeded_<ID>_<K>.rs})
+IDK=$1; ID=${IDK%-*}; K=${IDK#*-}; WT=/tmp/seed-$ID; OUT=/tmp/seed-out/$IDK; LOG=$OUT/confirm.log; T=seeded_${ID}_${K}
 cd $WT || exit 2
-git checkout -q -- . ; rm -f tests/seeded_$ID.rs
+git checkout -q -- . ; git clean -fdq tests/
 exec > $LOG 2>&1
 echo "== demo on unmodified source"
-cp $OUT/seeded_$ID.rs tests/
-cargo test --offline --test seeded_$ID 2>&1 | grep -E "^test |test result" ; A=${PIPESTATUS[0]}
+cp $OUT/$T.rs tests/
+cargo test --offline --test $T 2>&1 | grep -E "^test |test result" ; A=${PIPESTATUS[0]}
 echo "demo_without_change_exit=$A"
 echo "== demo with change"
 git apply $OUT/patch.diff || { echo APPLY_FAILED; exit 2; }
-cargo test --offline --test seeded_$ID 2>&1 | grep -E "^test |test result" ; B=${PIPESTATUS[0]}
+cargo test --offline --test $T 2>&1 | grep -E "^test |test result" ; B=${PIPESTATUS[0]}
 echo "demo_with_change_exit=$B"
-rm -f tests/seeded_$ID.rs
+rm -f tests/$T.rs
 echo "== suite with change"
-cargo test --workspace --no-fail-fast --offline 2>&1 | grep -E "^test result|FAILED|failed" | sort | uniq -c | sort -rn | head -8; C=${PIPESTATUS[0]}
+cargo test --workspace --no-fail-fast --offline > $OUT/suite.log 2>&1; C=$?
+grep -E "^test result" $OUT/suite.log | awk '{p+=$4; f+=$6} END {print "suite passed",p,"failed",f}'
 echo "suite_with_change_exit=$C"
-git checkout -q -- .
-echo "SUMMARY $ID without=$A with=$B suite=$C"
+git checkout -q -- . ; git clean -fdq tests/
+echo "SUMMARY $IDK without=$A with=$B suite=$C"
